@@ -4,8 +4,8 @@ from hypothesis import strategies as st
 from ..common import Sub
 from ..e1 import engine
 
-RULE = ("generator bodies as operation lists over {Value(v), await a constant future, await a batch item, await a child task, await a dict / tuple / list of futures, bare yield} (any interleaving, trailing "
-        "awaits, no Values, empty), optionally consumed through an outer async generator; consumers: list_of_generator, repeated take_first(n) for "
+RULE = ("generator bodies as operation lists over {Value(v), await a constant future, await a batch item, await a child task, await a function that itself tries to advance the generator (must be refused: the task handed out last is mid-flight), await a dict / tuple / list of futures, bare yield} (any interleaving, trailing "
+        "awaits, no Values, empty), optionally consumed through an outer async generator (which skips the inner generator's end marker itself or naively re-publishes whatever each task evaluates to, and may publish 0-2 more Values afterwards); consumers: list_of_generator, repeated take_first(n) for "
         "0 <= n <= len+2 on one generator (position-pointer model + bound on how far the body has advanced), manual next() misuse before the previous task "
         "is computed, and advancing after exhaustion. non-trivial = the body has an await after its last Value, or a take_first with n = 0 or n > remaining, "
         "or >= 2 take_first calls on one generator; distinct = distinct case JSON Mode several: generator objects of one function alive together, exhausted ones kept while new ones are created.")
@@ -14,10 +14,10 @@ ASSUMPTIONS = ["bodies that raise are not generated (the property speaks of Valu
 
 def strategy(tier):
     op = st.one_of(st.tuples(st.just("V"), st.integers(0, 9)), st.tuples(st.just("V"), st.integers(0, 9)), st.tuples(st.just("const"), st.integers(0, 9)),
-                   st.tuples(st.just("item"), st.integers(0, 9)), st.tuples(st.just("task"), st.integers(0, 9)),
+                   st.tuples(st.just("item"), st.integers(0, 9)), st.tuples(st.just("task"), st.integers(0, 9)), st.tuples(st.just("probe"), st.integers(0, 9)),
                    st.tuples(st.sampled_from(["dict", "tuple", "list", "none"]), st.integers(0, 9))).map(list)
     return st.fixed_dictionaries({"body": st.lists(op, max_size=8 if tier == "quick" else 16), "ns": st.lists(st.integers(0, 6), min_size=1, max_size=4),
-                                  "nested": st.booleans(), "mode": st.sampled_from(["list", "take", "take", "manual", "several"])})
+                                  "nested": st.booleans(), "outer": st.fixed_dictionaries({"filter": st.booleans(), "tail": st.lists(st.integers(10, 19), max_size=2)}), "mode": st.sampled_from(["list", "take", "take", "manual", "several"])})
 
 
 def check(case, ctx):
@@ -33,6 +33,24 @@ def check(case, ctx):
     def child(v):
         yield DebugBatchItem("g", 0)
         return v
+
+    cur = [None]
+    probes = []
+
+    @A()
+    def prober(v):
+        # runs while the task most recently handed out by the generator is in the middle of its work (it awaits this function),
+        # i.e. is not computed: advancing the generator now must be refused
+        if cur[0] is not None:
+            try:
+                next(cur[0])
+                probes.append("advanced")
+            except RuntimeError:
+                probes.append("refused")
+            except BaseException as e:
+                probes.append("raised %r" % (e,))
+        return v
+        yield
 
     @async_generator()
     def g():
@@ -50,6 +68,10 @@ def check(case, ctx):
                     wrong_awaits.append((i, k, v, r))
             elif k == "task":
                 r = yield child.asynq(v)
+                if r != v:
+                    wrong_awaits.append((i, k, v, r))
+            elif k == "probe":
+                r = yield prober.asynq(v)
                 if r != v:
                     wrong_awaits.append((i, k, v, r))
             elif k == "dict":
@@ -72,16 +94,22 @@ def check(case, ctx):
 
     @async_generator()
     def outer():
+        # re-publishes the inner generator's items, either skipping the inner generator's end marker itself or naively wrapping whatever
+        # each task evaluates to (then the consumers have to keep the marker out of their results), and may publish more Values afterwards
         for task in g():
             v = yield task
-            if v is END_OF_GENERATOR:
+            if v is END_OF_GENERATOR and outer_cfg["filter"]:
                 continue
+            yield Value(v)
+        for v in outer_cfg["tail"]:
             yield Value(v)
 
     def mk():
         pos[0] = 0
-        return outer() if nested else g()
-    vals = [v for k, v in opl if k == "V"]
+        cur[0] = outer() if nested else g()
+        return cur[0]
+    outer_cfg = case.get("outer") or {"filter": True, "tail": []}
+    vals = [v for k, v in opl if k == "V"] + (list(outer_cfg["tail"]) if nested else [])
     vidx = [i for i, (k, v) in enumerate(opl) if k == "V"]
     desc = "body %r%s" % (opl, " consumed through an outer generator" if nested else "")
 
@@ -131,6 +159,7 @@ def check(case, ctx):
     elif mode == "several":
         # several generator objects of the same function alive together, and an exhausted one kept around
         a, b = mk(), mk()
+        cur[0] = None        # (no re-entrant probing when several generators are alive: the body cannot tell which one it belongs to)
         n0 = ns[0] % (len(vals) + 1)
         for name, thunk, exp in (("take_first(A, %d)" % n0, lambda: take_first(a, n0), vals[:n0]),
                                  ("list_of_generator(B), B created before A was advanced", lambda: list_of_generator(b), vals),
@@ -190,6 +219,9 @@ def check(case, ctx):
                 bad("exhausted", "next() after exhaustion did not raise StopIteration")
             except StopIteration:
                 pass
+    if any(p != "refused" for p in probes):
+        viol.insert(0, ("C17.guard", "%s: next(gen) called from a function the body awaits -- the task handed out last is in the middle of its work, not computed -- %s instead of raising RuntimeError" % (
+            desc, [p for p in probes if p != "refused"][0])))
     if wrong_awaits and not viol:
         i, k, v, r = wrong_awaits[0]
         viol.append(("C17.await", "%s: operation %d awaited a %s future whose result is %r but the body was resumed with %r" % (desc, i, k, v, r)))
@@ -199,6 +231,9 @@ def check(case, ctx):
     ctx.label("no-values", not vals)
     ctx.label("n=0", mode == "take" and 0 in ns)
     ctx.label("nested", nested)
+    ctx.label("re-entrant-advance-attempted-from-an-awaited-function", bool(probes))
+    ctx.label("outer-forwards-the-inner-end-marker", nested and not outer_cfg["filter"] and trailing)
+    ctx.label("outer-publishes-more-Values-afterwards", nested and bool(outer_cfg["tail"]))
     ctx.label("structured-or-empty-await", any(k in ("dict", "tuple", "list", "none") for k, v in opl))
     ctx.nontrivial(case, trailing or mode == "several" or (mode == "take" and (0 in ns or len(ns) >= 2 or any(n > len(vals) for n in ns))))
     return viol
@@ -216,6 +251,11 @@ def reduce_case(case):
             yield dict(case, ns=ns[:i] + [ns[i] - 1] + ns[i + 1:])
     if case["nested"]:
         yield dict(case, nested=False)
+        o = case.get("outer")
+        if o and o["tail"]:
+            yield dict(case, outer=dict(o, tail=o["tail"][:-1]))
+        if o and not o["filter"]:
+            yield dict(case, outer=dict(o, filter=True))
     for i, (k, v) in enumerate(b):
         if k != "V" and k != "const":
             yield dict(case, body=b[:i] + [["const", v]] + b[i + 1:])
